@@ -7,7 +7,7 @@ patched tree and records which ones report a violation."""
 import json, os, re, shutil, subprocess, sys, tempfile, time
 prop, sd, sid = sys.argv[1], sys.argv[2], sys.argv[3]
 VERIF = "/verif"
-TGT = "/scratch/ingest-target"
+TGT = os.environ.get("INGEST_TARGET", "/scratch/ingest-target")
 d = tempfile.mkdtemp(prefix="ingest.", dir="/scratch")
 env = dict(os.environ, CARGO_TARGET_DIR=TGT, CARGO_NET_OFFLINE="true")
 def sh(cmd, cwd=d, **kw):
